@@ -65,8 +65,7 @@ impl<'a> crate::exec::Visitor for TextV<'a> {
             (Some(p), Some(e)) => (p, e),
             _ => return Ok(()),
         };
-        if cx.fam() == crate::keys::FamId::CombinedEd
-            && crate::props::hist::secp_valid_entry(&post.pairs)
+        if crate::props::hist::known_combined_state(cx.fam(), post)
             && !crate::engine::strict()
             && crate::engine::is_known(crate::props::c05::KNOWN_COMBINED_ED)
         {
